@@ -21,7 +21,7 @@ PID = 'C19'
 META = {
     'technique': 'sibling agreement of guard expressions (raise vs reset of the period counter; key-frame handling of the six hierarchical-level branches), control-dependence and ordering on the structured control tree, value-shape check of every store to frame_type',
     'text': 'Decides three structural necessary conditions of periodic intra refresh and random access: the period counter is reset under the same equality that raises the IDR/CRA flag and otherwise only incremented by one (so the distance between refreshes is the configured one), KEY_FRAME is coded exactly for IDR pictures, and every branch that builds the reference structure handles a key frame first (no reference index assigned, frame shown, layer toggles rewound, DPB list cleared in the user-structure variant). It does not decide the placement arithmetic relative to mini-GOP boundaries, scene-change interaction, nor the equality of pictures decoded from a cut point (value-level, needs a decoder).',
-    'note': 'forced key frames from the application (pic_type) and scene-change CRAs are outside the periodic protocol and are not constrained by COUNTER',
+    'note': 'forced key frames from the application (pic_type) and scene-change CRAs are outside the periodic protocol; COUNTER constrains them only in that nothing but the wrap and the first picture of the stream may rewind the period counter',
     'ref': 'DESIGN.md section 9.10',
 }
 
@@ -108,6 +108,14 @@ def run(P, rep, tier):
             # statement form `if (position == X) position = 0;`: X must be the period
             gcmp = [x for kind, cond, line in f.ctl_chain(ev) if cond is not None and kind == 'if' for x in eq_pos_len(cond)]
             ok = ok and all(last_field(x) == LEN for x in gcmp)
+            # the cadence k*(period+1) survives only if the counter is rewound at the wrap and at the first picture of the stream: the
+            # innermost guard must be one of the two (a rewind under idr_flag lets a key frame forced by the application shift it)
+            inner = [strip(cond) for kind, cond, line in f.ctl_chain(ev) if kind == 'if' and cond is not None][:1]
+            first_pic = bool(inner) and inner[0][0] == 'b' and inner[0][1] == '==' and pstr(strip(inner[0][3])) == '0' and (last_field(strip(inner[0][2])) or '').endswith('.picture_number')
+            if ok and inner and not gcmp and not first_pic:
+                rep.ob('C19.COUNTER', 'update@%s' % ev.get('l'), False, f.loc(ev),
+                       'the period counter is rewound to 0 under %s: only the wrap (position == intra_period_length) and the first picture of the stream may rewind it; under this guard every picture that satisfies it (e.g. a key frame the application forces) restarts the period and the following refreshes leave the positions k*(period+1)' % pstr(inner[0])[:80])
+                continue
             rep.ob('C19.COUNTER', 'update@%s' % ev.get('l'), ok, f.loc(ev), 'counter set to the literal %s%s' % (r[1], '' if ok else ' (only a rewind to 0, under position == intra_period_length when conditional, is part of the protocol)'))
             continue
         if (e[1] == '+=' and r[0] == 'l') or (e[1] == '=' and r[0] == 'b' and r[1] == '+' and last_field(strip(r[2])) == POS and strip(r[3])[0] == 'l'):
